@@ -12,6 +12,10 @@ use crate::{
     varint::{VARINT_MAX, VarInt},
 };
 
+/// The most connection IDs we keep issued at a time, however large the peer's
+/// active_connection_id_limit is.
+const MAX_ISSUED_CIDS: u64 = 16;
+
 /// Local connection ID management.
 #[derive(Debug)]
 struct LocalCids<ISSUED>
@@ -79,7 +83,10 @@ where
             )
             .into());
         }
-        for _ in self.cid_deque.largest()..active_cid_limit {
+        // The peer's limit says how many connection IDs it is willing to store, not how many we
+        // have to issue: an endpoint MAY limit the number it issues, and a limit of 2^62-1 must
+        // not make us generate, register and announce that many connection IDs.
+        for _ in self.cid_deque.largest()..active_cid_limit.min(MAX_ISSUED_CIDS) {
             self.issue_new_cid();
         }
         self.active_cid_limit = Some(active_cid_limit);
